@@ -107,9 +107,13 @@ theorem C11_set_reference_target (w : World) (x t : Nat) :
 /-! ### added in the third session: statements proved in the lemma files, restated here by name
 (`type_of%` keeps the statement identical to the lemma; the signature is quoted in the comment) -/
 
-/-- `move_element_here` inside one model: a refusal leaves the world unchanged in every world with an exact index (the partial failure `NameFail` - identifiable by type but without item name - cannot occur there: `C11_move_name_failure_unreachable`)
+/-- `move_element_here` inside one model: a refusal leaves the world unchanged in every world with an exact index (kept under this name; since the repair of c11:move-fails-without-item-name the hypothesis `hw` is not needed any more: `C11_move_unconditional`; the former partial failure `NameFail` - identifiable by type but without item name - is refused before anything changes, and cannot occur in such a world anyway: `C11_move_name_failure_unreachable`)
 `theorem opMove_err_frame_winv (vOk : Nat) (w : World) (hw : WInv S vOk w) (p x : Nat) (pos? : Option Nat) (h : (opMove S V w p x pos?).2 = .err) : (opMove S V w p x pos?).1 = w` -/
 theorem C11_move : type_of% @AV.W.opMove_err_frame_winv := @AV.W.opMove_err_frame_winv
+
+/-- `move_element_here` inside one model: a refusal leaves the world unchanged, in every world
+`theorem opMove_err_frame (w : World) (p x : Nat) (pos? : Option Nat) (h : (opMove S V w p x pos?).2 = .err) : (opMove S V w p x pos?).1 = w` -/
+theorem C11_move_unconditional : type_of% @AV.W.opMove_err_frame := @AV.W.opMove_err_frame
 
 /-- `theorem nameFail_impossible (vOk : Nat) (w : World) (hw : WInv S vOk w) (p x : Nat) : ¬ NameFail S w p x` -/
 theorem C11_move_name_failure_unreachable : type_of% @AV.W.nameFail_impossible := @AV.W.nameFail_impossible
